@@ -144,49 +144,12 @@ theorem exec_fold_av_nothing (n : Nat) (env : Env) (b table alias l : String) (t
       simp [avRunN, avRunNCount, hh, Nat.add_assoc]
 
 
-theorem map_setTable_self (ts : List Table) (t : Table) (h : ts.find? (·.name == t.name) = some t)
-    (hu : (ts.map (·.name)).Nodup) : ts.map (fun x => if x.name == t.name then t else x) = ts := by
-  induction ts with
-  | nil => rfl
-  | cons x xs ih =>
-    rw [List.find?_cons] at h
-    simp only [List.map_cons, List.nodup_cons] at hu ⊢
-    cases hx : (x.name == t.name) with
-    | true =>
-      rw [hx] at h
-      cases h
-      -- no other table has this name
-      have : xs.map (fun y => if y.name == t.name then t else y) = xs := by
-        conv => rhs; rw [← List.map_id xs]
-        apply List.map_congr_left
-        intro y hy
-        have : (y.name == t.name) = false := by
-          cases hyn : (y.name == t.name) with
-          | false => rfl
-          | true =>
-            exfalso
-            have e : y.name = t.name := by simpa using hyn
-            exact hu.1 (by rw [← e]; exact List.mem_map_of_mem hy)
-        simp [this]
-      rw [this]
-      simp
-    | false =>
-      rw [hx] at h
-      simp only [Bool.false_eq_true, if_false]
-      rw [ih h hu.2]
-
 theorem exec_mapM_rows {ρ : Type} (m : Nat) (env : Env) (f : ρ → List Expr) (g : ρ → List (Option Value))
     (hsrc : ∀ r m s, (evalValuesRow (m + 1) env (f r)).exec s = (.ok (g r), s)) (rows : List ρ) (s : St) :
     ((rows.map f).mapM (fun r => evalValuesRow (m + 1) env r)).exec s = (.ok (rows.map g), s) := by
   induction rows with
   | nil => simp
   | cons r rest ih => simp only [List.map_cons, exec_mapM_cons, hsrc, ih]
-
-theorem withTable_self (s : St) (t : Table) (h : s.w.table? t.name = some t) (hu : (s.w.tables.map (·.name)).Nodup) :
-    s.withTable t = s := by
-  unfold St.withTable World.setTable
-  unfold World.table? at h
-  rw [map_setTable_self _ _ h hu]
 
 /-- `INSERT INTO accounts_volumes … VALUES rows ON CONFLICT DO NOTHING` (no RETURNING) as a whole -/
 theorem exec_execInsert_av_nothing (n : Nat) (env : Env) (b alias l : String) (cols target : List String) (tw : Option Expr) (cn : String)
